@@ -346,3 +346,13 @@ func TestFinding28_CircularLayoutIsReportedAtOnce(t *testing.T) {
 		t.Fatalf("want a layout cycle error, got %v (%d bytes)", err, buf.Len())
 	}
 }
+
+// row 29 — C03.R6 (found by the rule): <template v-html> was returned as output with its sibling link intact
+func TestFinding29_TemplateVHtmlDoesNotDragSiblings(t *testing.T) {
+	out, err := renderFS(t, map[string]string{
+		"p.vuego": `<div><template v-html="x"></template><p v-if="no">hidden {{ secret }}</p></div>`,
+	}, "p.vuego", map[string]any{"x": "<b>ok</b>", "no": false, "secret": "S"})
+	if err != nil || strings.Contains(out, "hidden") || !strings.Contains(out, "<b>ok</b>") {
+		t.Fatalf("a falsy v-if branch after <template v-html> is rendered: %q err=%v", out, err)
+	}
+}
